@@ -1,7 +1,7 @@
-(* C11 -- every exact regular grid whose origin is closer than half a step to
-   zero satisfies the coordinate hypothesis `axis_ok` of the selection
-   theorems, for ANY positive step size (so `wf` is not a property of a few
-   sample maps). *)
+(* C11 -- every exact regular grid satisfies the coordinate hypothesis
+   `axis_ok` of the selection theorems, for ANY origin and ANY positive step
+   size (so `wf` is not a property of a few sample maps): data slices are
+   computed from coordinates relative to the minimum of all points. *)
 From Coq Require Import String Ascii ZArith QArith Qround Lqa List Bool Lia Arith.
 From Verif Require Import NdIndex C11CMap C11Nd C11Sel C11Acc C11Wit.
 Import ListNotations.
@@ -49,34 +49,68 @@ Proof.
     rewrite Hc. reflexivity.
 Qed.
 
-(* the coordinate hypothesis holds for every exact grid axis *)
+Lemma rhe_int (k : Z) : rhe (0 + inject_Z k)%Q = k.
+Proof. apply rhe_shift; reflexivity. Qed.
+
+(* the point with flat index 0 has grid index 0 along every axis *)
+Lemma unravel_zero s : unravel s 0 = repeat 0 (length s).
+Proof.
+  induction s as [|n s IH]; simpl; [reflexivity|].
+  assert (H1 : 0 / size s = 0) by (destruct (size s); reflexivity).
+  assert (H2 : 0 mod size s = 0) by (destruct (size s); [reflexivity | apply Nat.mod_0_l; lia]).
+  rewrite H1, H2, IH. f_equal. destruct n; [reflexivity | apply Nat.mod_0_l; lia].
+Qed.
+
+Lemma ix_zero s d : ix s d 0 = 0.
+Proof.
+  unfold ix. rewrite unravel_zero.
+  destruct (Nat.lt_ge_cases d (length s)) as [H|H].
+  - apply nth_repeat.
+  - apply nth_overflow. rewrite repeat_length. assumption.
+Qed.
+
+(* the coordinate hypothesis holds for every exact grid axis, whatever its
+   origin o *)
 Theorem exact_grid_axis_ok (s : list nat) (d : nat) (o st st' : Q) (c : list Q) :
-  (0 < st)%Q -> (- (1 # 2) < o / st)%Q -> (o / st < 1 # 2)%Q -> (st' == st)%Q ->
+  (0 < st)%Q -> (st' == st)%Q ->
   length c = size s ->
   (forall p, p < size s -> (nth p c 0 == o + inject_Z (Z.of_nat (ix s d p)) * st)%Q) ->
   axis_ok s d (c, st').
 Proof.
-  intros Hst Hlo Hhi Heq Hlen Hc. unfold axis_ok. simpl.
+  intros Hst Heq Hlen Hc. unfold axis_ok. simpl.
   assert (Hne : ~ (st == 0)%Q) by lra.
-  split; [assumption|]. split.
+  split; [assumption|].
+  destruct (Nat.eq_dec (size s) 0) as [Hz|Hnz].
+  { split; intros; lia. }
+  (* the minimum of the coordinates is the origin *)
+  assert (Hmin : (qminl c == o)%Q).
+  { assert (Hcne : c <> []) by (intros E; subst c; simpl in Hlen; lia).
+    pose proof (qminl_In c Hcne) as Hin.
+    apply (In_nth _ _ 0%Q) in Hin as [pa [Hpa Ea]]. rewrite Hlen in Hpa.
+    assert (Hle : (qminl c <= nth 0 c 0)%Q).
+    { apply qminl_le. apply nth_In. lia. }
+    rewrite (Hc 0 ltac:(lia)), ix_zero in Hle. change (inject_Z (Z.of_nat 0)) with 0%Q in Hle.
+    pose proof (Hc pa Hpa) as Hca. rewrite Ea in Hca.
+    assert (Hnn : (0 <= inject_Z (Z.of_nat (ix s d pa)))%Q).
+    { change 0%Q with (inject_Z 0). rewrite <- Zle_Qle. lia. }
+    assert (Hm : (0 <= inject_Z (Z.of_nat (ix s d pa)) * st)%Q)
+      by (apply Qmult_le_0_compat; [assumption | lra]).
+    apply Qle_antisym; lra. }
+  split.
   - intros p Hp. specialize (Hc p Hp).
     set (k := Z.of_nat (ix s d p)) in *.
-    assert (E : (nth p c 0 / st' == o / st + inject_Z k)%Q).
-    { rewrite Hc, Heq. field. assumption. }
+    assert (E : ((nth p c 0 - qminl c) / st' == 0 + inject_Z k)%Q).
+    { rewrite Hc, Hmin, Heq. field. assumption. }
     split.
-    + rewrite (rhe_comp _ _ E). apply rhe_shift; assumption.
-    + assert (E2 : (nth p c 0 / st' + 1 == o / st + inject_Z (k + 1))%Q).
+    + rewrite (rhe_comp _ _ E). apply rhe_int.
+    + assert (E2 : ((nth p c 0 - qminl c) / st' + 1 == 0 + inject_Z (k + 1))%Q).
       { rewrite E, injp1. ring. }
-      rewrite (rhe_comp _ _ E2). apply rhe_shift; assumption.
+      rewrite (rhe_comp _ _ E2). apply rhe_int.
   - intros p q Hp Hq Hle. rewrite (Hc p Hp), (Hc q Hq).
     assert (Hz : (inject_Z (Z.of_nat (ix s d p)) <= inject_Z (Z.of_nat (ix s d q)))%Q).
     { rewrite <- Zle_Qle. lia. }
     nra.
 Qed.
-
-Example exact_grid_nonvacuous :
-  (0 < 7 # 10)%Q /\ (- (1 # 2) < (1 # 5) / (7 # 10))%Q /\ ((1 # 5) / (7 # 10) < 1 # 2)%Q.
-Proof. repeat split; reflexivity. Qed.
 
 (* ---------------------------------------------------------------------
    step size and presence of a coordinate array that is an exact grid *)
@@ -184,7 +218,7 @@ Proof.
 Qed.
 
 (* the data slice the model computes for this axis over ALL points *)
-Lemma gc_slice_all (o_lo : (- (1 # 2) < o / st)%Q) (o_hi : (o / st < 1 # 2)%Q) pM sel :
+Lemma gc_slice_all pM sel :
   pM < n -> (forall p, p < n -> f p <= f pM) ->
   slice1 sel false (gc, step_of (Some gc)) = Ok (0%Z, Z.of_nat (S (f pM))).
 Proof.
@@ -193,21 +227,22 @@ Proof.
   rewrite match_ne by exact gc_ne.
   assert (Hne : ~ (st == 0)%Q) by lra.
   f_equal. f_equal.
-  - assert (E : (qminl gc / step_of (Some gc) == o / st + inject_Z 0)%Q).
-    { rewrite gc_min, Hs. change (inject_Z 0) with 0%Q. field. assumption. }
-    rewrite (rhe_comp _ _ E). apply rhe_shift; assumption.
-  - assert (E : (qmaxl gc / step_of (Some gc) + 1 == o / st + inject_Z (Z.of_nat (S (f pM))))%Q).
-    { rewrite (gc_max pM HpM Hmax), Hs. rewrite Nat2Z.inj_succ. unfold Z.succ. rewrite injp1.
+  - assert (E : ((qminl gc - qminl gc) / step_of (Some gc) == 0 + inject_Z 0)%Q).
+    { rewrite Hs. change (inject_Z 0) with 0%Q. field. assumption. }
+    rewrite (rhe_comp _ _ E). apply rhe_int.
+  - assert (E : ((qmaxl gc - qminl gc) / step_of (Some gc) + 1
+                 == 0 + inject_Z (Z.of_nat (S (f pM))))%Q).
+    { rewrite (gc_max pM HpM Hmax), gc_min, Hs. rewrite Nat2Z.inj_succ. unfold Z.succ. rewrite injp1.
       field. assumption. }
-    rewrite (rhe_comp _ _ E). apply rhe_shift; assumption.
+    rewrite (rhe_comp _ _ E). apply rhe_int.
 Qed.
 
 End GridCoord.
 
 (* ---------------------------------------------------------------------
    Every 2-D map built by the constructor from exact grid coordinates with
-   at least 2 rows and 2 columns, any positive steps and any origin closer
-   than half a step to zero is well-formed, with original shape (nr, nc). *)
+   at least 2 rows and 2 columns, any positive steps and ANY origin is
+   well-formed, with original shape (nr, nc). *)
 Section Grid2.
 Context {V R : Type}.
 Variables nr nc : nat.
@@ -216,10 +251,6 @@ Hypothesis Hnr : 2 <= nr.
 Hypothesis Hnc : 2 <= nc.
 Hypothesis Hdx : (0 < dx)%Q.
 Hypothesis Hdy : (0 < dy)%Q.
-Hypothesis Hx1 : (- (1 # 2) < ox / dx)%Q.
-Hypothesis Hx2 : (ox / dx < 1 # 2)%Q.
-Hypothesis Hy1 : (- (1 # 2) < oy / dy)%Q.
-Hypothesis Hy2 : (oy / dy < 1 # 2)%Q.
 
 Let N := nr * nc.
 Let gx := gc N (fun p => p mod nc) ox dx.
@@ -275,12 +306,12 @@ Proof.
   (* y axis: indices 0 .. nr-1;  x axis: indices 0 .. nc-1 *)
   assert (Sy : slice1 ind0 false (gy, step_of (Some gy)) = Ok (0%Z, Z.of_nat (S ((nr - 1) * nc / nc)))).
   { apply (gc_slice_all N (fun p => p / nc) oy dy Hdy 0 nc H0 H2
-             ltac:(apply Nat.div_0_l; lia) ltac:(apply Nat.div_same; lia) Hy1 Hy2 ((nr - 1) * nc) ind0 H3).
+             ltac:(apply Nat.div_0_l; lia) ltac:(apply Nat.div_same; lia) ((nr - 1) * nc) ind0 H3).
     intros p Hp'. rewrite Nat.div_mul by lia. unfold N in Hp'.
     assert (p / nc < nr) by (apply Nat.div_lt_upper_bound; lia). lia. }
   assert (Sx : slice1 ind0 false (gx, step_of (Some gx)) = Ok (0%Z, Z.of_nat (S ((nc - 1) mod nc)))).
   { apply (gc_slice_all N (fun p => p mod nc) ox dx Hdx 0 1 H0 H1
-             ltac:(apply Nat.mod_0_l; lia) ltac:(apply Nat.mod_small; lia) Hx1 Hx2 (nc - 1) ind0 ltac:(lia)).
+             ltac:(apply Nat.mod_0_l; lia) ltac:(apply Nat.mod_small; lia) (nc - 1) ind0 ltac:(lia)).
     intros p Hp'. rewrite (Nat.mod_small (nc - 1)) by lia.
     assert (p mod nc < nc) by (apply Nat.mod_upper_bound; lia). lia. }
   rewrite Sy. cbn [bind]. rewrite Sx.
@@ -297,11 +328,11 @@ Proof.
   split; [reflexivity|].
   intros d a Hd.
   destruct d as [|[|d]]; simpl in Hd; [| |destruct d; discriminate]; injection Hd as Hd; subst a.
-  - apply (exact_grid_axis_ok [nr; nc] 0 oy dy (step_of (Some gy)) gy Hdy Hy1 Hy2 Hsy).
+  - apply (exact_grid_axis_ok [nr; nc] 0 oy dy (step_of (Some gy)) gy Hdy Hsy).
     + unfold gy, gc. rewrite map_length, seq_length. congruence.
     + intros p Hp'. rewrite Hsz in Hp'. unfold gy. rewrite gc_nth by assumption.
       rewrite ix2_row by assumption. reflexivity.
-  - apply (exact_grid_axis_ok [nr; nc] 1 ox dx (step_of (Some gx)) gx Hdx Hx1 Hx2 Hsx).
+  - apply (exact_grid_axis_ok [nr; nc] 1 ox dx (step_of (Some gx)) gx Hdx Hsx).
     + unfold gx, gc. rewrite map_length, seq_length. congruence.
     + intros p Hp'. rewrite Hsz in Hp'. unfold gx. rewrite gc_nth by assumption.
       rewrite ix2_col by assumption. reflexivity.
